@@ -195,6 +195,24 @@ def check_grain(g, rec=None):
         src2 *= 0.5
         if not np.array_equal(np.asarray(g3.ubi), ubi_before):
             fails.append(fail("alias", "grain.set_ubi keeps a reference to the caller's array", route="set_ubi(ndarray)"))
+    # the last cycles of a refinement: updates of parts per million (and of parts in 1e9) through set_ubi after the
+    # derived matrices were read; what is read afterwards belongs to the new matrix
+    ok, g4 = guard(grainmod.grain, np.array(ubi_before, float))
+    if ok:
+        cur = np.array(ubi_before, float)
+        for step, eps in enumerate((3e-6, 1e-7, 2e-9)):
+            _ = (g4.UB, g4.U, g4.B, g4.unitcell, g4.mt, g4.rmt)
+            D = np.array([[1.0, 0.3, -0.2], [-0.25, 0.7, 0.1], [0.15, -0.1, -0.6]]) * eps
+            cur = (np.eye(3) + D) @ cur
+            g4.set_ubi(cur.copy())
+            e1 = np.abs(np.asarray(g4.UB) @ cur - np.eye(3)).max()
+            e2 = np.abs(np.asarray(g4.U) @ np.asarray(g4.B) @ cur - np.eye(3)).max()
+            e3 = np.abs(np.asarray(g4.mt) - cur @ cur.T).max() / np.abs(cur @ cur.T).max()
+            if max(e1, e2, e3) > 1e-10:
+                fails.append(fail("cache", "after set_ubi with an update of %g (step %d of a refinement history) "
+                                  "UB.ubi, U.B.ubi differ from identity by %.3g, %.3g and mt from ubi.ubi^T by %.3g"
+                                  % (eps, step, e1, e2, e3), route="grain.set_ubi(small update)"))
+                break
     if rec is not None:
         oblique = any(abs(x - 90) > 1e-9 for x in g["cell"][3:])
         nt = oblique and not np.allclose(U, np.eye(3))
@@ -302,6 +320,39 @@ def check_map(case, rec=None):
                     if bad:
                         fails.append(fail("cache", "TensorMap.%s after the UBI map was replaced (%s): %s" %
                                           (name, ["attribute", "item", "add_map"][how], bad), route="TensorMap.cache"))
+                        break
+    # ---- layers stacked along z (from_stack): derived maps had been read on some of the layers only (one slice was
+    #      inspected before the volume was assembled); the stack's derived maps must describe the stacked UBIs
+    if not fails and shape[0] >= 2:
+        layers = []
+        for z in range(shape[0]):
+            ok, m = guard(tm.TensorMap, {"UBI": ubi[z:z + 1].copy(), "phase_ids": np.zeros((1,) + shape[1:], int)})
+            if not ok:
+                fails.append(exc_failure("TensorMap()", m))
+                break
+            if (z + case["mseed"]) % 2 == 0:
+                for name in (("U", "unitcell") if case["mseed"] % 3 else ("UB", "mt", "B")):
+                    guard(lambda: getattr(m, name))
+            layers.append(m)
+        else:
+            ok, st_ = guard(tm.TensorMap.from_stack, layers)
+            if not ok:
+                fails.append(exc_failure("TensorMap.from_stack", st_))
+            else:
+                for name in ("UB", "mt", "unitcell", "B", "U"):
+                    ok, v = guard(lambda: getattr(st_, name))
+                    if not ok:
+                        fails.append(exc_failure("TensorMap.%s of a stack" % name, v))
+                        break
+                    v = np.asarray(v)
+                    ref = outs["masked"].get(name)
+                    if ref is None:
+                        continue
+                    if v.shape != ref.shape or not np.array_equal(np.isnan(v), np.isnan(ref)) or \
+                            not np.allclose(v[~np.isnan(ref)], ref[~np.isnan(ref)], rtol=1e-9, atol=1e-12):
+                        fails.append(fail("cache", "TensorMap.from_stack of %d layers, derived maps read on every "
+                                          "second layer beforehand: %s of the stack differs from %s of one map holding "
+                                          "the same UBIs" % (shape[0], name, name), route="TensorMap.from_stack"))
                         break
     if rec is not None:
         # a NaN voxel adjacent (6-neighbourhood) to a valid voxel
